@@ -112,6 +112,14 @@ func replaceFn(f []string) func(old int, loaded bool) (int, bool) {
 	panic("bad replace function " + strings.Join(f, ":"))
 }
 
+// lwfr appears in the history as the LoadWithFunc it is
+func (o *mapObj) histOp(f []string) string {
+	if f[0] == "lwfr" {
+		return "lwf:" + strings.Join(f[1:], ":")
+	}
+	return strings.Join(f, ":")
+}
+
 func (o *mapObj) exec(f []string, e *env) string {
 	m := o.m
 	iv := func(i int) val { return val{id: i} }
@@ -174,6 +182,21 @@ func (o *mapObj) exec(f []string, e *env) string {
 		cb := "nil"
 		v, ok := m.LoadWithFunc(atoi(f[1]), func(v int) int { cb = iv(v).String(); return v + d })
 		return fmt.Sprintf("v=%s/cb=%s", optStr(iv(v), ok), cb)
+	case "lwfr":
+		// LoadWithFunc whose callback looks the key up again (a nested read lock: a scheduling point inside the callback):
+		// cb = what the callback was called with, now = what the map holds under the key while the callback runs
+		d := atoi(f[2])
+		cb, now := "nil", "nil"
+		v, ok := m.LoadWithFunc(atoi(f[1]), func(v int) int {
+			cb = iv(v).String()
+			w, wok := m.Load(atoi(f[1]))
+			now = optStr(iv(w), wok)
+			return v + d
+		})
+		if cb == "nil" {
+			return fmt.Sprintf("v=%s/cb=nil", optStr(iv(v), ok))
+		}
+		return fmt.Sprintf("v=%s/cb=%s/now=%s", optStr(iv(v), ok), cb, now)
 	case "loswf":
 		d := atoi(f[2])
 		cb := "nil"
